@@ -10,6 +10,9 @@ def nontrivial(specs):
     W = model.MWorld()
     seen_regen = set()
     for m in specs:
+        if m.get('destroy'):
+            W.close(m['conn'])
+            continue
         rec = W.step(m)
         objs = [rec['target']] + [o for o in rec['args'] if o is not None and o not in rec['created']]
         if rec['destroyed'] is not None:
@@ -27,7 +30,7 @@ class _Base(Stage):
         res.label('dialect:' + case.get('dialect', 'new'))
         res.nontrivial = nontrivial(specs)
         from .. import wire
-        res.sample = dict(dialect=case.get('dialect', 'new'), lines=[wire.render(m, case.get('dialect', 'new')) for m in specs[:12]], n=len(specs))
+        res.sample = dict(dialect=case.get('dialect', 'new'), lines=[wire.render(m, case.get('dialect', 'new')) if not m.get('destroy') else '(connection %s destroyed)' % m['conn'] for m in specs[:12]], n=len(specs))
 
     def execute(self, case):
         tr, res = tracker.run_history(case['specs'], CHECKS, case.get('dialect', 'new'))
@@ -88,8 +91,25 @@ class GdbMode(_Base):
         return 120 if tier == 'quick' else 14 * 1000
 
     def gen(self, d, tier):
-        specs = histgen.history(d, nconn=d.int(1, 2), nmsg=d.int(5, 36), tagged=True, profile=dict(reuse=0.7, server_reuse=0.5, weights=dict(
-            delete=16, bind=14, message=40, server_event=10, sync=6, enum=4, retype=8, twins=10, server_retype=6)))
+        prof = dict(reuse=0.7, server_reuse=0.5, weights=dict(delete=16, bind=14, message=40, server_event=10, sync=6, enum=4, retype=8, twins=10, server_retype=6))
+        if d.chance(0.6):
+            specs = histgen.history(d, nconn=d.int(1, 2), nmsg=d.int(5, 36), tagged=True, profile=prof)
+        else:
+            # connections come and go: libwayland destroys one and a later connection lives at the same address - a new
+            # connection with a fresh table (ids start over)
+            tags = histgen.gen_tags(d, d.int(1, 2), tagged=True)
+            gens = {t: histgen.ConnGen(t, d.choice(['client', 'server']), prof) for t in tags}
+            specs, t_us = [], d.choice([0, 1000, 123456789])
+            for _ in range(d.int(6, 40)):
+                tag = d.choice(tags)
+                t_us += histgen.next_gap(d)
+                if gens[tag].started and d.chance(0.12):
+                    specs.append(dict(destroy=True, conn=tag, t_us=t_us))
+                    gens[tag] = histgen.ConnGen(tag, d.choice(['client', 'server']), prof)
+                    continue
+                m = gens[tag].next(d)
+                m['conn'], m['t_us'] = tag, t_us
+                specs.append(m)
         return dict(dialect='gdb-shaped', specs=specs, vprefix=d.choice(['', '', '3']))
 
     def execute(self, case):
@@ -98,6 +118,9 @@ class GdbMode(_Base):
         tr = tracker.GdbTracker(case.get('vprefix', ''))
         try:
             for spec in case['specs']:
+                if spec.get('destroy'):
+                    tr.destroy(spec['conn'])
+                    continue
                 try:
                     msg, rec = tr.apply(spec)
                 except tracker.GdbModeLost as e:
